@@ -261,17 +261,43 @@ def rm(ctx):
                             ctx.fail(inst + '/nested-reset', body, 'a surviving key can skip the nested reset', line=line, props=['C05'])
 
 
-def _reexam_sites(facts, it, r):
-    """Blocks whose (transitive) effects empty the pending table, touch entries' elements and may re-defer."""
-    out = []
+def _reexam_ok(facts, it, r, rc, start_blocks):
+    """After the blocks in start_blocks every path empties the pending table and replays it through the remove routine.
+    Either one call does all of it (a re-examination helper), or the emptying and the replay loop are inline.
+    Returns (ok, site block or None, message)."""
+    empt, repl, whole = [], [], []
     for bb in it.calls:
         effs = [e for e in call_effects(facts, it, bb) if e.param == 1]
         takes = any(e.path[:1] == (r['deferred'],) and e.kind == 'w' and e.how in EMPTYING | {'assign'} for e in effs)
         adds = any(e.path[:1] == (r['deferred'],) and e.how in ADDING for e in effs)
         elems = any(e.path[:1] == (r['entries'],) for e in effs)
         if takes and adds and elems:
-            out.append(bb)
-    return out
+            whole.append(bb)
+        elif takes:
+            empt.append(bb)
+        elif adds and elems:
+            repl.append(bb)
+    if whole:
+        if all(rc.must_pass(whole, start=s) for s in start_blocks):
+            return True, whole[0], ''
+    if empt and repl:
+        # inline form: emptying on every path, then a replay loop over the taken table
+        if all(rc.must_pass(empt, start=s) for s in start_blocks):
+            for b in repl:
+                fr = iteration_frame(it, b)
+                if fr is None:
+                    continue
+                base = iter_source(fr[2])[0]
+                pp = param_path(base)
+                if pp and pp[0] == 1 and pp[1] == (r['deferred'],) and not (set(iter_adaptors(fr[2])) & LOSSY_ADAPTORS):
+                    after = set()
+                    for e in empt:
+                        after |= rc._reach(e, set())
+                    if fr[1] in after and rc.must_pass([b], start=fr[0], stops=(fr[1],)) and all(rc.must_pass([fr[1]], start=s) for s in start_blocks):
+                        return True, b, ''
+    if not whole and not (empt and repl):
+        return False, None, 'never'
+    return False, (whole or empt or repl)[0], 'skipped'
 
 
 @rule('DEF-REEXAM', {
@@ -291,42 +317,38 @@ def def_reexam(ctx):
         grow = [bb for bb, c in it.calls.items() if is_call(c.term, ('apply', 'merge'), self_adt='VClock') and c.args and c.args[0].is_mut_ref
                 and param_path(c.args[0].val) and param_path(c.args[0].val)[0] == 1 and param_path(c.args[0].val)[1] == (r['clock'],)
                 and bb in rc.reachable]
-        sites = _reexam_sites(facts, it, r)
         name = inst + '/apply'
         if not grow:
             ctx.shape(name, body, 'replica clock growth not found in the gated arm (see ABSORB)')
-        elif not sites:
-            ctx.fail(name, body, 'pending removes are never re-examined after the replica clock grows', line=block_line(it, grow[-1]))
         else:
-            bad = [g for g in grow if not rc.must_pass(sites, start=g)]
-            # the growth block itself precedes: start after it
-            bad = []
-            for g in grow:
-                nxt = it.succs[g]
-                if not all(rc.must_pass(sites, start=n) for n in nxt):
-                    bad.append(g)
-            ctx.check(not bad, name, body, 're-examination follows clock growth on every path',
-                      'a path from the clock growth at line %d returns without re-examining pending removes' % (block_line(it, bad[0]) if bad else 0),
-                      line=block_line(it, sites[0]))
+            starts = [n for g in grow for n in it.succs[g]]
+            ok, site, why = _reexam_ok(facts, it, r, rc, starts)
+            if ok:
+                ctx.ok(name, body, 're-examination follows clock growth on every path', line=block_line(it, site))
+            elif why == 'never':
+                ctx.fail(name, body, 'pending removes are never re-examined after the replica clock grows', line=block_line(it, grow[-1]))
+            else:
+                ctx.fail(name, body, 'a path from the clock growth at line %d returns without re-examining pending removes' % block_line(it, grow[0]),
+                         line=block_line(it, site) if site is not None else None)
         # merge
         body = ctx.method(adt, 'CvRDT', 'merge')
         it = interp(facts, body)
         rc = Reach(facts, body, Evaluator(facts))
         grow = [bb for bb, c in it.calls.items() if is_call(c.term, ('apply', 'merge'), self_adt='VClock') and c.args and c.args[0].is_mut_ref
                 and param_path(c.args[0].val) and param_path(c.args[0].val)[0] == 1 and param_path(c.args[0].val)[1] == (r['clock'],)]
-        sites = _reexam_sites(facts, it, r)
         name = inst + '/merge'
         if not grow:
             ctx.shape(name, body, 'merge does not grow the replica clock (see ABSORB-MERGE)')
-        elif not sites:
-            ctx.fail(name, body, 'merge never re-examines pending removes after joining the clocks', line=block_line(it, grow[-1]))
         else:
-            bad = []
-            for g in grow:
-                if not all(rc.must_pass(sites, start=n) for n in it.succs[g]):
-                    bad.append(g)
-            ctx.check(not bad, name, body, 're-examination follows the clock join on every path',
-                      'a path from the clock join returns without re-examining pending removes', line=block_line(it, sites[0]))
+            starts = [n for g in grow for n in it.succs[g]]
+            ok, site, why = _reexam_ok(facts, it, r, rc, starts)
+            if ok:
+                ctx.ok(name, body, 're-examination follows the clock join on every path', line=block_line(it, site))
+            elif why == 'never':
+                ctx.fail(name, body, 'merge never re-examines pending removes after joining the clocks', line=block_line(it, grow[-1]))
+            else:
+                ctx.fail(name, body, 'a path from the clock join returns without re-examining pending removes',
+                         line=block_line(it, site) if site is not None else None)
 
 
 @rule('DEF-TAKE', {
@@ -357,7 +379,16 @@ def def_take(ctx):
             for bb, c in it.calls.items():
                 info = cinfo(c.cid)
                 if info['local'] and info['uid'] in rm_uids:
-                    replays.append(bb)
+                    from_table = False
+                    for a in c.args[1:]:
+                        for st in subterms(versionless(a.val)):
+                            src = as_item(st)
+                            if src is not None:
+                                pp = param_path(iter_source(src)[0])
+                                if pp and pp[0] == 1 and pp[1] == (r['deferred'],):
+                                    from_table = True
+                    if from_table:
+                        replays.append(bb)
             if not replays:
                 ctx.fail(inst, b, 'the emptied pending table is not replayed through the remove routine', line=block_line(it, takes[0]))
                 continue
